@@ -124,6 +124,20 @@ func engineCacheHist(ctx *Ctx) {
 		for i := 0; i < 4+r.Intn(4); i++ {
 			pool = append(pool, vlib.GenQuery(r, words, 1+r.Intn(4), []int{0, 0, 1, 2}[r.Intn(4)]))
 		}
+		if ctx.G(h)%3 == 2 {
+			// requests that are equal after a Unicode lower-casing but not for the engine: U+212A KELVIN SIGN lower-cases to the
+			// ASCII letter k, U+0130 to i + combining dot, U+017F (long s) upper-cases to S - the engine, which drops every
+			// non-ASCII rune before it folds case, reads them as different words
+			for _, q := range append([]string(nil), pool...) {
+				for _, pr := range [][2]string{{"k", "\u212a"}, {"K", "\u212a"}, {"i", "\u0130"}, {"s", "\u017f"}, {"I", "\u0131"}} {
+					if strings.Contains(q, pr[0]) {
+						pool = append(pool, strings.Replace(q, pr[0], pr[1], 1))
+						ctx.R.Path("unicode-case-twin-queries", 1)
+						break
+					}
+				}
+			}
+		}
 		if ctx.G(h)%4 == 1 {
 			// long requests that differ only in a small part: the same text up to a byte offset near a power of two / the 1000-byte
 			// query bound, then different words (and the mirror image: different words first, then the same long tail)
